@@ -173,7 +173,8 @@ def h_string_text(ctx, cls, length, n):
             ctx.check("canonical text reads to the same value", conv.convert(c) == res)
 
 
-TOKENS_STR = ["&amp;", "&lt;", "&gt;", "&nbsp;", "&apos;", "&quot;", "&", "amp;", "lt;", "gt;", "nbsp;", "apos;", "quot;", "x", ";"]
+TOKENS_STR = ["&amp;", "&lt;", "&gt;", "&nbsp;", "&apos;", "&quot;", "&", "amp;", "lt;", "gt;", "nbsp;", "apos;", "quot;", "x", ";",
+              "&#39;", "&#34;", "#39;", "&#x27;"]          # numeric character references are NOT OFX escapes: they stay literal
 
 
 def h_string_tokens(ctx, cls, length, ntok):
@@ -325,6 +326,23 @@ def h_dec_text(ctx, scale, ni, nf, sep, signed):
     ctx.check("canonical decimal text is a fixed point", conv.unconvert(back) == c)
 
 
+def h_dec_long(ctx, scale, ni, nf):
+    """amounts with more significant digits than the default decimal context holds (OFX allows 32 characters): nothing
+    may be rounded on the way in or out"""
+    conv = Types.Decimal(scale)
+    neg = ctx.bool("neg")
+    di = ctx.str("i", ni, "0-9")
+    df = ctx.str("f", nf, "0-9")
+    ctx.assume(di[0] != "0")
+    t = ("-" if neg else "") + di + "." + df
+    r = conv.convert(t)
+    sr, cr, er = dec_parts(r)
+    ctx.check("a long decimal text reads exactly (no rounding to a context precision)",
+              ctx.all([cr == int(di) * 10 ** nf + int(df), er == -nf, sr == (1 if neg else 0)]))
+    c = conv.unconvert(r)
+    ctx.check("a long decimal is written exactly", c == t)
+
+
 def h_dec_badtext(ctx, n):
     conv = Types.Decimal(None)
     d = ctx.str("d", n, "0-9")
@@ -382,7 +400,7 @@ from harness import c09 as _c09
 
 HARNESSES = dict(dt_write=_c09.h_write, dt_read=_c09.h_read, dt_naive=_c09.h_write_naive, dt_roundtrip=_c09.h_roundtrip, bool=h_bool, bool_text=h_bool_text, none=h_none, string_value=h_string_value, string_text=h_string_text, string_tokens=h_string_tokens,
                  oneof=h_oneof, int_value=h_int_value, int_text=h_int_text, int_badtext=h_int_badtext, dec_value=h_dec_value,
-                 dec_text=h_dec_text, dec_badtext=h_dec_badtext, listelement=h_listelement, wrongtype=h_wrongtype)
+                 dec_text=h_dec_text, dec_long=h_dec_long, dec_badtext=h_dec_badtext, listelement=h_listelement, wrongtype=h_wrongtype)
 
 META = dict(
     bounds=dict(strings="length <= limit+1 (limits None,1,2,3; None uses lengths 1-3) over the printable alphabet of DESIGN section 3",
@@ -444,6 +462,8 @@ def instances(tier, seed):
                 mk(f"dec_text[{sc},{ni},{nf},{sep}]", "dec_text", dict(scale=sc, ni=ni, nf=nf, sep=sep, signed=True))
     for n in (1, 3):
         mk(f"dec_badtext[{n}]", "dec_badtext", dict(n=n))
+    mk("dec_long[None,28,2]", "dec_long", dict(scale=None, ni=28, nf=2), timeout_ms=30000)
+    mk("dec_long[2,26,2]", "dec_long", dict(scale=2, ni=26, nf=2), timeout_ms=30000)
     for n in (1, 2, 3):
         mk(f"listelement[{n}]", "listelement", dict(n=n))
     # date-time and time: the value spaces of C09 (writer over all instants x offsets; reader on the shapes the writer emits)
